@@ -18,3 +18,52 @@ pub fn instruction_table() -> Vec<(u8, String, usize)> {
 pub fn hash_value(v: &crate::value::Value) -> u64 {
     crate::collections::hash_map::verif_hash(v)
 }
+
+use crate::value::Value;
+use crate::vm::runtime::{cao_lang_object::CaoLangObject, RuntimeData};
+use std::ptr::NonNull;
+
+/// Live part of the value stack, bottom first
+pub fn value_stack(rt: &RuntimeData) -> Vec<Value> {
+    rt.value_stack.as_slice().to_vec()
+}
+
+/// `(src_instr_ptr, dst_instr_ptr, stack_offset, has_closure)` of every call frame, bottom first
+pub fn call_frames(rt: &RuntimeData) -> Vec<(u32, u32, u32, bool)> {
+    rt.call_stack
+        .iter()
+        .map(|f| (f.src_instr_ptr, f.dst_instr_ptr, f.stack_offset, !f.closure.is_null()))
+        .collect()
+}
+
+pub fn globals(rt: &RuntimeData) -> Vec<Value> {
+    rt.global_vars.clone()
+}
+
+/// Every object the VM currently owns
+pub fn object_list(rt: &RuntimeData) -> Vec<NonNull<CaoLangObject>> {
+    rt.object_list.clone()
+}
+
+/// `(allocated, next_gc, limit)` of the VM's allocator
+pub fn alloc_counters(rt: &RuntimeData) -> (usize, usize, usize) {
+    use std::sync::atomic::Ordering::Relaxed;
+    (
+        rt.memory.allocated.load(Relaxed),
+        rt.memory.next_gc.load(Relaxed),
+        rt.memory.limit.load(Relaxed),
+    )
+}
+
+/// Number of entries in the open-upvalue list
+pub fn open_upvalues(rt: &RuntimeData) -> usize {
+    let mut n = 0;
+    let mut p = rt.open_upvalues;
+    unsafe {
+        while let Some(u) = p.as_ref().and_then(|o| o.as_upvalue()) {
+            n += 1;
+            p = u.next;
+        }
+    }
+    n
+}
